@@ -211,6 +211,11 @@ func c17GenReqCase(g *c17Gen) *c17ReqCase {
 		if http.CanonicalHeaderKey(c.Headers[i].Name) == "Content-Length" {
 			c.Headers[i].Values = []string{strconv.Itoa(n)}
 			g.probes["explicit-content-length"]++
+			if t.Bool(1, 3, "content-length-leading-zero") {
+				// still a decimal number (RFC 9110 8.6: 1*DIGIT)
+				c.Headers[i].Values = []string{"0" + strconv.Itoa(n)}
+				g.probes["explicit-content-length-leading-zero"]++
+			}
 		}
 	}
 	if t.Bool(1, 2, "has-raw-params") {
@@ -583,6 +588,15 @@ func c17JudgeRequest(c *c17ReqCase, obs *c17ReqObs, res *simwork.Result) {
 	want, keys := c17Expect(c.Headers)
 	for _, k := range keys {
 		got := obs.Header.Values(k)
+		if k == "Content-Length" && len(got) == 1 && len(want[k]) == 1 {
+			// a framing header that net/http writes itself: the number counts, not its spelling
+			g, gerr := strconv.ParseUint(got[0], 10, 63)
+			w, werr := strconv.ParseUint(want[k][0], 10, 63)
+			if gerr != nil || werr != nil || g != w {
+				c17AddViolation(res, "c17/request-header", "header Content-Length: %q, specified %q", got, want[k])
+			}
+			continue
+		}
 		if !c17EqualStrings(got, want[k]) {
 			c17AddViolation(res, "c17/request-header", "header %s: values %q, specified %q (in this order)", k, got, want[k])
 		}
